@@ -49,6 +49,12 @@ REGISTRY = {
                 undecided=['pattern converges to ideal ground as conductivity grows (limit; vectorised Fresnel branch)',
                            'splitting a medium / adding a far medium leaves the pattern unchanged (vectorised Fresnel branch) -- native sweep only'],
                 trusted=['call graph over-approximated by method name and arity']),
+    'C12': dict(module='contracts.C12', level='proof',
+                native=native_sweep('c12_pulses.py', 'pulse count from the geometry alone, gap-free numbering in object order, pulses on segment joints, grounded ends, end points perturbed by 0.4x / 2x the matching tolerance, closed loops, stars (random wire graphs, free space and ground)', 300, 8000),
+                undecided=[],
+                trusted=['coordinate triples as dictionary keys: abstract key = function of the three coordinates',
+                         'the regrouping of the per-end count into per-junction (k - 1) terms is a finite-sum identity (documented lemma)',
+                         'segmentation contract of C13 (first segment starts at end 1, last ends at end 2) assumed by the pulse slice']),
     'C13': dict(module='contracts.C13', level='other',
                 native=native_sweep('c13_segments.py', 'equal / tapered (types 1,2,3, min/max limits, growth <= 2.1, mirror) segmentation, arc and helix points, transformations through main() vs. independently transformed coordinates', 250, 6000),
                 undecided=[],
